@@ -67,7 +67,7 @@ CLAIMS["C18"] = dict(
     cat="proof",
     text="Contracts on the real dialect::SepPair::transform/addSep/generateSeparationConstraint: the complete multiplication table of the symmetry group of the square "
          "(all doubles, gaps compared bitwise so -0.0 counts); commutation of transform with geometry record by record and the (a,b)/(b,a) negation equivalence of addSep, "
-         "bit-precise over an exact integer-valued domain; SepMatrix::getSepPair sets the reverse-retrieval flag for existing and new pairs alike; generateSeparationConstraint emits the record's meaning for all doubles. TGLF round trip is undecided residue.",
+         "bit-precise over an exact integer-valued domain; addSep stores the stated separation -- a cardinal one together with the alignment in the other axis -- whatever the pair held before (all prior records, all doubles); SepMatrix::getSepPair sets the reverse-retrieval flag for existing and new pairs alike; generateSeparationConstraint emits the record's meaning for all doubles. TGLF round trip is undecided residue.",
     note=BASE_TB + "tools/d4.py group table; the record meaning sat1() stated in the contract file; exact-domain restriction is part of the commutation statement; "
          "operator new substituted by malloc + real constructor (dfcc limitation).",
     tech="CBMC harness proofs and code contracts on verbatim slices; oracle = group table from 2x2 matrices + record semantics; case split over transform/axis/type",
@@ -89,7 +89,7 @@ CLAIMS["C10"] = dict(
     text="Write-back kernel of nudging (NudgingShiftSegment::updatePositionsFromSolver, the only place nudging writes a route) under contract: a fixed segment writes "
          "nothing (empty frame, so first/last points stay put); the written position is the solver position clamped into [minSpaceLimit,maxSpaceLimit]; the loop body "
          "writes exactly one coordinate of one indexed point and keeps the route's size (unbounded, one arbitrary index); whole function bounded (<= 4 indexes); "
-         "bounded (<= 4 segments): a nudging region is closed under overlapsWith; bounded (<= 2 earlier segments): a region's segment is constrained against every earlier segment it overlaps; bounded (<= 2+2 checkpoints): channel limits respect checkpoints and bend spans together; fixedOrder only ever sets its shared out-parameter. "
+         "bounded (<= 4 segments): a nudging region is closed under overlapsWith; bounded (<= 2 earlier segments): a region's segment is constrained against every earlier segment it overlaps; bounded: a connector pair is recorded as sharing a path with a common end only on its own crossing evidence; bounded (<= 2+2 checkpoints): channel limits respect checkpoints and bend spans together; fixedOrder only ever sets its shared out-parameter. "
          "Which segments are fixed, ordering, channel computation, grouping and the resulting separation are undecided residue.",
     note=BASE_TB + "Assumed read-only contract for ConnRef::displayRoute(); Point::operator[]'s `?:` reference return rewritten to if/return (cbmc crash work-around); "
          "body+bounded-loop split for the write loop (DESIGN 2.9).",
